@@ -392,6 +392,10 @@ class kFlowDecomp(pathmodel.AbstractPathModelDAG):
         # Check if the greedy decomposition satisfies the subpath constraints
         if self.subpath_constraints:
             for subpath in self.subpath_constraints:
+                # Malformed constraints (wrong shape, edges not in the graph) are reported by the validation
+                # in the parent constructor; the greedy heuristic is simply skipped for them
+                if not isinstance(subpath, list) or not all(isinstance(e, tuple) and len(e) == 2 and self.G.has_edge(e[0], e[1]) for e in subpath):
+                    return False
                 if self.subpath_constraints_coverage_length is None:
                     # By default, the length of the constraints is its number of edges 
                     constraint_length = len(subpath)
